@@ -24,13 +24,13 @@ type simNode struct {
 }
 
 const (
-	mHonest   = iota // nearest peers to the target, up to the limit
-	mFail            // Ask returns an error
-	mEveryone        // returns the whole universe
-	mSelf            // returns itself
-	mInitial         // returns the initial peers again (incl. the first contacted)
-	mCycle           // returns its successor in a cycle over the universe
-	mFabricate       // returns many fabricated ids
+	mHonest    = iota // nearest peers to the target, up to the limit
+	mFail             // Ask returns an error
+	mEveryone         // returns the whole universe
+	mSelf             // returns itself
+	mInitial          // returns the initial peers again (incl. the first contacted)
+	mCycle            // returns its successor in a cycle over the universe
+	mFabricate        // returns many fabricated ids
 	nModes
 )
 
